@@ -286,7 +286,7 @@ func c09Sig(c c09Case) uint64 {
 func TestC09_Rapid(t *testing.T) {
 	rec := evid.For("C09")
 	c09Notes(rec)
-	pbt.Check(t, rec, "setter", evid.Pick(15000, 300000), func(rt *rapid.T) (any, error) {
+	pbt.Check(t, rec, "setter", evid.Pick(40000, 400000), func(rt *rapid.T) (any, error) {
 		var c c09Case
 		nb := rapid.IntRange(0, 4).Draw(rt, "nBefore")
 		for i := 0; i < nb; i++ {
